@@ -26,6 +26,7 @@ class Program:
     ident_safe: bool = True
     note: str = ""
     state_only: bool = False  # covariance obligations are skipped in C04 (stated there)
+    real_symbols: bool = False  # the user's symbols carry the sympy assumption real=True
 
     # ---- name layout computed by the harness itself (not read from formak objects)
     def s_state(self):
@@ -48,6 +49,8 @@ class Program:
         import sympy
 
         names = [self.dt] + self.state + self.control + self.calibration
+        if self.real_symbols:
+            return {n: sympy.Symbol(n, real=True) for n in names}
         return {n: sympy.Symbol(n) for n in names}
 
     def ui_model(self, container="list", proactive_simplify=False, cal_container="set"):
@@ -163,7 +166,7 @@ def subst(e, sub):
         return sub.get(e.args[0], e)
     if e.op in ("c", "k"):
         return e
-    if e.op in ("max", "min", "pw", "atan2"):
+    if e.op in ("max", "min", "pw", "atan2", "sgnmul"):
         return X.E(e.op, *[subst(x, sub) for x in e.args])
     if e.op == "pow":
         return X.powi(subst(e.args[0], sub), e.args[1])
@@ -658,6 +661,24 @@ def P30():
     )
 
 
+def P31():
+    """Quadratic drag with Abs on symbols declared real (sympy assumptions carried by the user's symbols)."""
+    v, x, u, k, dt = V("v"), V("x"), V("u"), V("k"), V("dt")
+    return Program(
+        id="P31-real-abs",
+        state=["x", "v"],
+        control=["u"],
+        calibration=["k"],
+        update={"x": x + v * dt, "v": v - dt * k * v * X.absv(v) + u * dt},
+        process_noise={"u": 0.25},
+        sensors={"speed": {"s": X.absv(v) + x}},
+        sensor_noise={"speed": {"s": 0.5}},
+        calibration_values={"k": 0.375},
+        real_symbols=True,
+        note="Abs with real symbols: derivatives contain sign(v)",
+    )
+
+
 def quick_programs():
     return [P1(), P3(), P8()]
 
@@ -668,7 +689,7 @@ def all_fixed():
 
 def catalogue():
     """Every fixed program, including the model-level-only ones (replay looks programs up by id here)."""
-    return all_fixed() + [P11(), P18(), P21(), P22(), P23(), P24(), P25(), P26(), P27(), P28(), P29(), P30()]
+    return all_fixed() + [P11(), P18(), P21(), P22(), P23(), P24(), P25(), P26(), P27(), P28(), P29(), P30(), P31()]
 
 
 def with_noise(p, process=None, sensor=None, pid=None):
